@@ -894,3 +894,53 @@ def check(run, prog, tier):
                    "the success branch of growMap() (line %s) does not update the index with which %s addresses the bucket afterwards: the pending pair is linked into the bucket of the old, smaller table" % (n.get("l"), g.name),
                    g.file, n.get("l"), g.name, what="%s links a pair under the old mask after the table was doubled: the key is listed by keys() but never found" % g.name)
     run.need(ngm >= 5, "insertions that may grow the table (found %d)" % ngm)
+
+    # ---- C16-o the number reader takes every integer the writer can produce
+    run.rule("C16-o", "restore: a reader that builds an integer from decimal digits (`acc = acc * 10 + d`) collects the magnitude and applies the sign afterwards; the writer prints every 64-bit integer including the most negative one, whose magnitude is 2^63. A refusal that depends on the accumulated magnitude (`if (acc > (K - d) / 10) return 0`) therefore uses a bound K >= 2^63; a tighter bound refuses -9223372036854775808, which save_object()/save_variable() happily write", 1)
+    no_ = 0
+    for g in sorted(prog.functions(), key=lambda x: (x.file, x.line)):
+        if rel(g.file) != "lib/lpc/object.c":
+            continue
+        accs = {}
+        for b2, i2, n2 in g.nodes():
+            if n2.get("k") != "Asg":
+                continue
+            L_ = strip(n2["L"])
+            if L_.get("k") != "Ref" or L_.get("d") != "local" or not any(w_ in (L_.get("t") or "") for w_ in ("long", "int64", "uint64")):
+                continue
+            if (n2.get("op") == "*=" and const_val(n2["R"]) == 10) or (n2.get("op") == "=" and any(y.get("k") == "Bin" and y.get("op") == "*" and strip(y["L"]).get("id") == L_.get("id") and const_val(y["R"]) == 10 for y in walk(n2["R"]))):
+                accs[L_["id"]] = L_.get("n")
+        for aid, aname in sorted(accs.items()):
+            no_ += 1
+            run.saw(g)
+            verdict, why = True, "no refusal of %s() depends on the magnitude collected in `%s`" % (g.name, aname)
+            for bid in g.reachable():
+                blk = g.blocks[bid]
+                c = g.branch_cond(blk)
+                if c is None or len(blk.succ) < 2 or not any(y.get("k") == "Ref" and y.get("id") == aid for y in walk(c)):
+                    continue
+                for truth, s in ((True, blk.succ[0]), (False, blk.succ[1])):
+                    if s is None:
+                        continue
+                    sb = g.blocks[s]
+                    refuses = any(x.get("k") == "Return" and x.get("e") is not None and const_val(x["e"]) == 0 for e in sb.el for x in walk(e, True)) or sb.nr
+                    if not refuses:
+                        continue
+                    op, l, r = atom_of(c, truth)
+                    K = None
+                    if r is not None and op in (">", ">=") and strip(l).get("id") == aid:
+                        r0 = strip(r)
+                        if r0.get("k") == "Bin" and r0.get("op") == "/" and const_val(r0["R"]) == 10:
+                            inner = strip(r0["L"])
+                            K = const_val(inner) if const_val(inner) is not None else (const_val(inner["L"]) if inner.get("k") == "Bin" and inner.get("op") == "-" else None)
+                        elif const_val(r0) is not None:
+                            K = const_val(r0) * 10
+                    if K is not None and K < 0 and any("unsigned" in (y.get("t") or "") or "uint64" in (y.get("t") or "") for y in walk(r)):
+                        K += 2 ** 64        # the extractor prints 64-bit literals as signed
+                    if K is None:
+                        if verdict is True:
+                            verdict, why = None, "%s() refuses under `%s` (line %s), a test on the collected magnitude this rule does not read" % (g.name, show(c)[:60], c.get("l"))
+                    elif K < 2 ** 63:
+                        verdict, why = False, "%s() refuses (line %s) once the magnitude would exceed %d; the most negative 64-bit integer has magnitude 2^63 = 9223372036854775808 and is refused although the writer produces it: a saved object holding it does not restore" % (g.name, c.get("l"), K)
+            run.ob("C16-o", "magnitude:%s:%s" % (g.name, aname), verdict, why, g.file, g.line, g.name, what="%s refuses an integer the save side writes" % g.name)
+    run.need(no_ >= 1, "decimal accumulators in the restore unit (found %d)" % no_)
